@@ -2,6 +2,8 @@ SPECIFICATION Spec
 CONSTANT TerOnModelChange = TRUE
 CONSTANT CifChargeVerbatim = TRUE
 CONSTANT ShapeLevel = 0
+CONSTANT TerChainPadded = TRUE
+CONSTANT BlankSecondChain = FALSE
 CONSTANT MaxAtoms = 2
 INVARIANT InvDomain
 INVARIANT InvReadBack
